@@ -30,6 +30,7 @@ type SliceV struct {
 	Obj           int // array object; 0 = nil slice
 	Path          []PathElem
 	Off, Len, Cap int
+	SymLen        *Term // non-nil: abstract slice of which only len() is known (as this term)
 }
 
 type StrV struct {
